@@ -166,6 +166,12 @@ func cmdCheck(args []string) int {
 		if tier == 1 {
 			budget = 90 * time.Minute
 		}
+		if b := os.Getenv("BKLSYM_BUDGET_MIN"); b != "" {
+			var n int
+			if _, err := fmt.Sscan(b, &n); err == nil && n > 0 {
+				budget = time.Duration(n) * time.Minute
+			}
+		}
 		timeout := 10000
 		if tier == 1 {
 			timeout = 60000
